@@ -533,11 +533,11 @@ func MutatePath(r *rand.Rand, path string) string {
 		}
 	case 5: // trailing slash(es) (insignificant in non-strict mode)
 		return path + pick(r, []string{"/", "/", "//", "///"})
-	case 6: // missing leading slash / doubled leading slash
+	case 6: // missing leading slash / doubled, tripled ... leading slash
 		if chance(r, 1, 2) {
 			return strings.TrimPrefix(path, "/")
 		}
-		return "/" + path
+		return pick(r, []string{"/", "/", "//", "///"}) + path
 	case 7: // append a bare tail
 		return path + pick(r, bareTails)
 	case 8: // replace a segment
